@@ -67,8 +67,8 @@ func NewRedisBloomFilterWithParameters(numItems uint, errorRate float64) (*Bloom
 	filter := newBitSetRedis(size)
 	metadataKey := util.GenerateRandomString(16)
 	metadata := make(map[string]interface{})
-	metadata["size"] = size
-	metadata["numHashes"] = numHashes
+	metadata["size"] = util.Max(size, 1)
+	metadata["numHashes"] = util.Max(numHashes, 1)
 	metadata["bitsetKey"] = filter.getKey()
 	err := getRedisClient().HSet(context.Background(), metadataKey, metadata).Err()
 	if err != nil {
